@@ -25,8 +25,8 @@ ASSUMPTIONS = [
     "quantitative columns hold finite numbers or NaN, qualitative columns strings/numbers, targets are valid for the class",
     "a history entry of a dropped feature terminated by {'removed': True} is accepted (the package keeps it on purpose)",
 ]
-BUDGET = {"quick": 1600, "thorough": 20000}
-DEADLINE_S = {"quick": 200, "thorough": 2400}
+BUDGET = {"quick": 1600, "thorough": 100000}
+DEADLINE_S = {"quick": 200, "thorough": 3300}
 ALL_CLASSES = CARVERS + PIPELINES + STEPS
 HOSTILE = ("constant", "all_missing", "one_plus_missing", "ids", "equally_rare", "one_class_only", "big_spike")
 STR_NAN, STR_DEFAULT = "__NAN__", "__OTHER__"
